@@ -64,7 +64,7 @@ namespace occa {
       result_t result = it->second.get(c, cIndex + 1, length);
       if (!result.success() && (0 <= valueIndex)) {
         return result_t(const_cast<trieNode*>(this),
-                        cIndex + 1,
+                        cIndex,
                         valueIndex);
       }
       return result;
